@@ -107,8 +107,21 @@ def aggName : DL.AggF → String
 def aggOf : DL.AggF → Agg
   | .count => .count | .countDistinct => .countDistinct | .sum => .sum | .min => .min | .max => .max | .avg => .avg
 
-/-- `build_aggregation` (1562): group-by = head variables in head order, aggregates in head order,
-    output = group columns then aggregate columns. -/
+/-- position of every head term in the rows the `Aggregate` node emits (keys first, then aggregates) -/
+def headSlots : List DL.HTerm → Nat → Nat → Nat → List Nat
+  | [], _, _, _ => []
+  | .var _ :: hs, nk, ki, ai => ki :: headSlots hs nk (ki + 1) ai
+  | .agg _ _ :: hs, nk, ki, ai => (nk + ai) :: headSlots hs nk ki (ai + 1)
+  | .const _ :: hs, nk, ki, ai => headSlots hs nk ki ai
+
+def headName : DL.HTerm → Option String
+  | .var x => some x
+  | .agg f x => some (aggName f ++ "_" ++ x)
+  | .const _ => none
+
+/-- `build_aggregation` (1562): group-by = head variables in head order, aggregates in head order; the
+    `Aggregate` node emits group columns then aggregate columns, and when that is not the head order a
+    `Map` restoring the head order is put on top (the `Aggregate`'s schema then lists the emitted order). -/
 def buildHead (input : Node) (hargs : List DL.HTerm) : Option Node :=
   let sch := schema input
   if hargs.any (fun | .agg .. => true | _ => false) then
@@ -117,8 +130,12 @@ def buildHead (input : Node) (hargs : List DL.HTerm) : Option Node :=
     if hargs.any (fun | .const _ => true | _ => false) then none else
     match optMapM (fun x => firstIdx x sch 0) gb, optMapM (fun (fx : DL.AggF × String) => (firstIdx fx.2 sch 0).map (fun c => (aggOf fx.1, c))) ag with
     | some g, some a =>
-      -- `output_schema` is filled in *head order* (1578-1745) although rows are keys ++ aggregates
-      some (.aggregate input g a (hargs.filterMap (fun | .var x => some x | .agg f x => some (aggName f ++ "_" ++ x) | _ => none)))
+      let headSchema := hargs.filterMap headName
+      let proj := headSlots hargs gb.length 0 0
+      if proj == List.range proj.length then some (.aggregate input g a headSchema)
+      else
+        let emitted := gb ++ ag.map (fun fx => aggName fx.1 ++ "_" ++ fx.2)
+        some (.map (.aggregate input g a emitted) proj headSchema)
     | _, _ => none
   else
     match optMapM (fun (h : DL.HTerm) => match h with | .var x => (firstIdx x sch 0).map (fun i => (i, x)) | _ => none) hargs with
